@@ -2,6 +2,7 @@
 C18 — An inbox lists exactly the notifications sent to it, not blocked and not deleted.
 -/
 import Canine.Notif.Model
+import Canine.Generated.KeyFacts
 namespace Canine.Notif
 
 /-- Shape invariant of the shared store: every record sits under the key built from its own
@@ -248,5 +249,18 @@ example : Inv blockedState := by
   right; exact ⟨"alice", "bob", h.2, h.1⟩
 example : (step blockedState 7 (.create "carol" "alice" (some "alice") "{}" "" true)).isSome = true := by decide
 example : step blockedState 7 (.create "bob" "alice" (some "alice") "{}" "" true) = none := by decide
+
+/-! ## The store keys as they stand in the source (regenerated fact) -/
+
+/-- The inbox theorems tell notification entries (`to/from/time`) from block entries (`owner/blocked`) by the shape of their keys under the shared prefix.  Fingerprints of the key constructors of x/notifications/types/key*.go as the
+model was written against them; `Generated.keyFns_notifications` is recomputed from the source on every
+run (the declarations are listed in Generated/KeyFacts.lean). -/
+def C18_expectedKeys : List (String × String) := [
+  ("x/notifications/types/key_notifications.go:NotificationsKey", "7ea6422a0221239d"),
+  ("x/notifications/types/key_notifications.go:BlockKey", "1ae5b03dec6f8eae"),
+  ("x/notifications/types/key_notifications.go:IsNotificationKey", "8c06cab11b0d19b9"),
+  ("x/notifications/types/keys.go:KeyPrefix", "caccc65e7667915d")]
+
+theorem C18_store_keys_as_modelled : Generated.keyFns_notifications = C18_expectedKeys := by decide
 
 end Canine.Notif
